@@ -95,13 +95,27 @@ def check_ez_roundtrip(prog: Program, res: Result, G) -> None:
                     out["atoms"] = tuple(vals) if isinstance(
                         vals, tuple) and len(vals) == 2 else (UNK, UNK)
                 elif c.func.attr == "SetStereo" and c.args:
-                    out["tag"] = norm(c.args[0]).split(".")[-1]
+                    v = f.ev(c.args[0])
+                    out["tag"] = v if isinstance(v, str) else norm(
+                        c.args[0]).split(".")[-1]
             elif isinstance(st, ast.Raise):
                 out["raise"] = norm(st, 60)
 
-    for world, (b, e_) in (("same", ("d2", "d3")), ("swapped", ("d3", "d2"))):
+    worlds = [(w, be, ()) for w, be in (("same", ("d2", "d3")),
+                                        ("swapped", ("d3", "d2")))]
+    # a lone pair (None) in place of one substituent of an end
+    for none_at in ((0,), (1,), (4,), (5,), (0, 4), (0, 5), (1, 4), (1, 5)):
+        for w, be in (("same", ("d2", "d3")), ("swapped", ("d3", "d2"))):
+            worlds.append((f"{w}, None at {none_at}", be, none_at))
+    D0 = D
+    for world, (b, e_), none_at in worlds:
+        D = tuple(None if i in none_at else d for i, d in enumerate(D0))
+        ident = {d: d for d in D if d is not None}
+        ident[None] = "!KeyError(None)"
         inst = f"{inst0} [RDKit bond {world}]"
-        f = Fold({f"{bs}.atoms": D, f"{bs}.parity": 0, "a1": "d2",
+        f = Fold({"STEREOZ": "STEREOZ", "STEREOE": "STEREOE",
+                  "STEREOCIS": "STEREOCIS", "STEREOTRANS": "STEREOTRANS",
+                  f"{bs}.atoms": D, f"{bs}.parity": 0, "a1": "d2",
                   "a2": "d3", "new_a1": b, "new_a2": e_,
                   "map_num_idx_dict": ident, "rd_a1": "d2", "rd_a2": "d3"})
         out: dict = {}
@@ -134,8 +148,16 @@ def check_ez_roundtrip(prog: Program, res: Result, G) -> None:
                              f"stereo atoms / tag not folded: {out}")
             continue
         x, y = out["atoms"]
-        subs = {"d2": ("d0", "d1"), "d3": ("d4", "d5")}
-        if x not in subs[b] or y not in subs[e_]:
+        if "!KeyError(None)" in (x, y):
+            res.bad("T-EZ-ROUNDTRIP", f"{inst0} {world}: None as stereo atom",
+                    efi.loc(branch), f"{inst}: the lone-pair placeholder is "
+                    "looked up in the atom table (`map_num_idx_dict[None]`): "
+                    "the export raises KeyError(None) although the equal "
+                    "descriptor written with the placeholder in the other "
+                    "substituent position exports fine", instance=inst)
+            continue
+        subs = {"d2": (D[0], D[1]), "d3": (D[4], D[5])}
+        if x is None or y is None or x not in subs[b] or y not in subs[e_]:
             res.bad("T-EZ-ROUNDTRIP", f"{inst0} {world}: {x},{y}",
                     efi.loc(branch), f"{inst}: stereo atoms ({x}, {y}) are "
                     f"not a substituent of the begin atom {b} and one of the "
@@ -167,6 +189,129 @@ def check_ez_roundtrip(prog: Program, res: Result, G) -> None:
                          "construction of the six-atom tuple in the importer")
 
 
+TAG_OF = {"SquarePlanar": "CHI_SQUAREPLANAR",
+          "TrigonalBipyramidal": "CHI_TRIGONALBIPYRAMIDAL",
+          "Octahedral": "CHI_OCTAHEDRAL"}
+
+
+def check_optional_label(prog: Program, res: Result) -> None:
+    res.rule("R-PERM-OPTIONAL", "where the exporter writes the chiral tag of "
+             "a class but the `_chiralPermutation` label only for a specified "
+             "parity, the importer's branch for that tag must not read the "
+             "label unconditionally (HasProp guard / KeyError handler): an "
+             "unspecified descriptor has to come back, not raise")
+    efi = prog.fn("graph2rdmol:stereo_mol_graph_to_rdmol")
+    ifi = prog.fn("rdmol2graph:RDMol2StereoMolGraph.smg_from_rdmol")
+    from ..core import ancestors
+    for cls, tag in TAG_OF.items():
+        ebr = [n for n in ast.walk(efi.node) if isinstance(n, ast.If)
+               and re.search(rf"isinstance\(\w+, {cls}\)", norm(n.test))]
+        ibr = [n for n in ast.walk(ifi.node) if isinstance(n, ast.If)
+               and norm(n.test).endswith(tag) and "chiral_tag" in norm(n.test)]
+        inst = f"{cls}: label optional in the export => optional in the import"
+        if not ebr or not ibr:
+            res.unrecognised("R-PERM-OPTIONAL", inst, efi.loc(),
+                             "exporter / importer branch of the class")
+            continue
+        sets = [c for b in ebr[0].body for c in ast.walk(b)
+                if isinstance(c, ast.Call) and isinstance(
+                    c.func, ast.Attribute) and c.func.attr == "SetUnsignedProp"
+                and c.args and norm(c.args[0]) == "'_chiralPermutation'"]
+        if not sets:
+            res.unrecognised("R-PERM-OPTIONAL", inst, efi.loc(ebr[0]),
+                             "no SetUnsignedProp('_chiralPermutation', ..)")
+            continue
+
+        def under_parity_guard(c):
+            for a_ in ancestors(c):
+                if a_ is ebr[0]:
+                    return False
+                if isinstance(a_, ast.If) and re.search(
+                        r"\.parity is not None", norm(a_.test)):
+                    return True
+            return False
+        optional = all(under_parity_guard(c) for c in sets)
+        reads = [c for b in ibr[0].body for c in ast.walk(b)
+                 if isinstance(c, ast.Call) and isinstance(
+                     c.func, ast.Attribute) and c.func.attr in (
+                     "GetUnsignedProp", "GetIntProp", "GetProp")
+                 and c.args and norm(c.args[0]) == "'_chiralPermutation'"]
+
+        def guarded(c):
+            prev = c
+            for a_ in ancestors(c):
+                if a_ is ibr[0]:
+                    return False
+                if isinstance(a_, ast.If) and "HasProp('_chiralPermutation')" \
+                        in norm(a_.test):
+                    return True
+                if isinstance(a_, ast.Try) and any(
+                        h.type is None or "KeyError" in norm(h.type)
+                        for h in a_.handlers):
+                    return True
+                prev = a_
+            return False
+        # after the normal form an `if not HasProp: ... else: read` may have
+        # been turned round; a sibling HasProp test in the branch counts
+        has_test = any("HasProp('_chiralPermutation')" in norm(n.test)
+                       for b in ibr[0].body for n in ast.walk(b)
+                       if isinstance(n, ast.If))
+        if not optional:
+            res.ok("R-PERM-OPTIONAL", inst, efi.loc(ebr[0]),
+                   "label written for every parity")
+        elif reads and (all(guarded(c) for c in reads) or has_test):
+            res.ok("R-PERM-OPTIONAL", inst, ifi.loc(ibr[0]))
+        elif reads:
+            res.bad("R-PERM-OPTIONAL", f"{cls}: unguarded label read",
+                    ifi.loc(reads[0]), f"{inst}: the exporter writes {tag} "
+                    "without a label for parity None, the importer calls "
+                    f"`{norm(reads[0])}` unconditionally: re-importing an "
+                    f"exported graph with an unspecified {cls} raises "
+                    "KeyError", instance=inst)
+        else:
+            res.unrecognised("R-PERM-OPTIONAL", inst, ifi.loc(ibr[0]),
+                             "how the importer reads the label")
+
+
+def check_mapnum_domain(prog: Program, res: Result) -> None:
+    res.rule("R-MAPNUM-DOMAIN", "every atom identifier the exporter writes as "
+             "an atom-map number is one the map-number import accepts: RDKit "
+             "reads map number 0 as `no map number`, so an exporter that "
+             "writes the identifier unchanged and an importer that rejects "
+             "0 cannot round-trip a graph that contains the identifier 0")
+    mk = prog.fn("graph2rdmol:mol_graph_to_rdmol")
+    ifi = prog.fn("rdmol2graph:RDMol2StereoMolGraph.smg_from_rdmol")
+    writes = [c for c in ast.walk(mk.node) if isinstance(c, ast.Call)
+              and isinstance(c.func, ast.Attribute)
+              and c.func.attr == "SetAtomMapNum" and c.args]
+    inst = "exported atom-map numbers are accepted by the map-number import"
+    if not writes:
+        res.unrecognised("R-MAPNUM-DOMAIN", inst, mk.loc(),
+                         "SetAtomMapNum call of mol_graph_to_rdmol")
+        return
+    # the identifier itself (loop variable over graph.atoms) or shifted?
+    loop_vars = {norm(l.target) for l in ast.walk(mk.node)
+                 if isinstance(l, ast.For) and re.fullmatch(
+                     r"\w+\.atoms", norm(l.iter))}
+    raw = [c for c in writes if norm(c.args[0]) in loop_vars]
+    rejects_zero = [n for n in ast.walk(ifi.node) if isinstance(n, ast.Compare)
+                    and "GetAtomMapNum()" in norm(n.left)
+                    and isinstance(n.ops[0], ast.Eq)
+                    and norm(n.comparators[0]) == "0"]
+    if raw and rejects_zero:
+        res.bad("R-MAPNUM-DOMAIN", "identifier 0 is exported as map number 0",
+                mk.loc(raw[0]), f"{inst}: `{norm(raw[0])}` writes the "
+                "identifier unchanged and the importer raises for map number "
+                f"0 (`{norm(rejects_zero[0])}`): a graph that contains the "
+                "identifier 0 cannot be exported and re-imported by atom-map "
+                "number", instance=inst)
+    elif raw or rejects_zero:
+        res.ok("R-MAPNUM-DOMAIN", inst, mk.loc(writes[0]))
+    else:
+        res.unrecognised("R-MAPNUM-DOMAIN", inst, mk.loc(writes[0]),
+                         f"map number written as `{norm(writes[0].args[0])}`")
+
+
 def run(prog: Program, res: Result, tier: str) -> None:
     res.rule("T-ROUNDTRIP", "for every stored descriptor (all orderings of "
              "the ligands relative to RDKit's neighbour order, every parity) "
@@ -183,6 +328,8 @@ def run(prog: Program, res: Result, tier: str) -> None:
     exp = exporter_model(prog)
     efi = exp["_fi"]
     check_ez_roundtrip(prog, res, G)
+    check_optional_label(prog, res)
+    check_mapnum_domain(prog, res)
     # ---------------------------------------------------------------- SP, TB
     # bond rewriting inside the export invalidates the neighbour order that
     # tags of OTHER atoms were (or will be) computed against
